@@ -31,6 +31,7 @@ Definition spec_form_kind (f : lform) : pkind :=
   | LF_data1 => KUInt 1 | LF_data2 => KUInt 2 | LF_data4 => KUInt 4 | LF_data8 => KUInt 8
   | LF_data16 => KArray 16
   | LF_block => KBlock KUleb
+  | LF_strp_sup | LF_GNU_strp_alt => KOffset
   end.
 Definition spec_form_name (f : lform) : string :=
   match f with
@@ -38,6 +39,7 @@ Definition spec_form_name (f : lform) : string :=
   | LF_udata => "DW_FORM_udata" | LF_data1 => "DW_FORM_data1" | LF_data2 => "DW_FORM_data2"
   | LF_data4 => "DW_FORM_data4" | LF_data8 => "DW_FORM_data8" | LF_data16 => "DW_FORM_data16"
   | LF_block => "DW_FORM_block"
+  | LF_strp_sup => "DW_FORM_strp_sup" | LF_GNU_strp_alt => "DW_FORM_GNU_strp_alt"
   end.
 Lemma gen_forms_standard : forall f,
   form_lookup tbl_c05_forms (lform_code f) = Some (spec_form_name f, spec_form_kind f).
